@@ -588,6 +588,7 @@ func runC19(c *Check) {
 	ruleSealersWriteBeforeSuccess(c, p, "C19-R14")
 	c.MinInstances("C19-R3", 3)
 	ruleNoTypedNilSigner(c, p, "C19-R15")
+	rulePassphraseHandedOverAsGiven(c, p, "C19-R16")
 	c.MinInstances("C19-R4", 2)
 }
 
@@ -1106,4 +1107,75 @@ func ruleNoTypedNilSigner(c *Check, p *Prog, rule string) {
 		c.Unk(rule, "signer constructors", "", "", "anchor lost: no function returning (interface, error) in the signer packages")
 	}
 	c.MinInstances(rule, 2)
+}
+
+// rulePassphraseHandedOverAsGiven (C19-R16): the key file is sealed by one command (init, keys
+// import) and opened by another (start, keys export), each reading the passphrase from the same
+// flag. "Loads only with that passphrase and loads to the same key" therefore needs every one of
+// them to hand the key-file functions the flag's value as it is: a command that trims, folds or
+// otherwise normalises it seals or opens under a different passphrase than its siblings.
+func rulePassphraseHandedOverAsGiven(c *Check, p *Prog, rule string) {
+	c.Doc(rule, "VP (sibling agreement): at every call of the key-file functions (Create / LoadFileSystemSigner, Import / ExportPrivateKey) outside the signer package, the passphrase argument is the byte conversion of the passphrase flag's value itself — the result of pflag's GetString, looked through the package's helpers — with no string function applied on the way.")
+	names := map[string]int{ // function -> index of the passphrase parameter
+		filePkg + ".CreateFileSystemSigner": 1,
+		filePkg + ".LoadFileSystemSigner":   1,
+		filePkg + ".ImportPrivateKey":       2,
+		filePkg + ".ExportPrivateKey":       1,
+	}
+	n := 0
+	for _, fn := range p.Funcs {
+		pk := fnPkg(fn)
+		if pk == nil || !strings.HasPrefix(pk.Pkg.Path(), rootPath) || pk.Pkg.Path() == filePkg || fn.Blocks == nil {
+			continue
+		}
+		for _, b := range fn.Blocks {
+			for _, in := range b.Instrs {
+				call, ok := in.(*ssa.Call)
+				if !ok || call.Common().StaticCallee() == nil {
+					continue
+				}
+				idx, isKey := names[fnName(call.Common().StaticCallee())]
+				if !isKey || idx >= len(call.Common().Args) {
+					continue
+				}
+				n++
+				t := TermOf(call.Common().Args[idx], &Ctx{Fn: fn})
+				bad := ""
+				var walk func(x *Term, d int)
+				walk = func(x *Term, d int) {
+					u := x.unconv()
+					switch {
+					case u.Op == "extract" && u.Name == "0" && len(u.Args) == 1 && strings.HasSuffix(u.Args[0].Name, "pflag.FlagSet).GetString"):
+					case u.Op == "phi":
+						for _, a := range u.Args {
+							walk(a, d)
+						}
+					case u.Op == "field" || u.Op == "param" || (u.Op == "const"):
+						// a configuration field / a parameter of an exported helper / an empty default: no rewriting here
+					default:
+						if d > 0 {
+							if rs := p.ReturnTerms(u); len(rs) > 0 {
+								for _, r := range rs {
+									walk(r, d-1)
+								}
+								return
+							}
+						}
+						bad = trunc(u.String(), 90)
+					}
+				}
+				walk(t, 3)
+				inst := fnShort(topParent(fn)) + " ⟂ " + fnShort(call.Common().StaticCallee()) + " gets the passphrase as given"
+				if bad == "" {
+					c.OK(rule, inst, fnName(fn), p.InstrPos(call), "the passphrase argument is the flag's value itself: "+trunc(t.String(), 80), true)
+				} else {
+					c.Bad(rule, inst, fnName(fn), p.InstrPos(call), "the passphrase handed to the key-file function is rewritten on the way from the flag ("+bad+"): the key is sealed or opened under a different passphrase than the one the other commands use for the same flag value — a key saved under a passphrase does not load with it", nil)
+				}
+			}
+		}
+	}
+	if n == 0 {
+		c.Unk(rule, "key-file call sites", "", "", "anchor lost: no call of the key-file functions outside the signer package")
+	}
+	c.MinInstances(rule, 3)
 }
